@@ -39,6 +39,107 @@ def decodecorpus_frames(ctx, n, seed):
     return res
 
 
+ML_CODE_LO = [3, 4, 5, 6, 7, 8, 9, 10, 11, 12, 13, 14, 15, 16, 17, 18, 19, 20, 21, 22, 23, 24, 25, 26, 27, 28, 29, 30, 31, 32, 33, 34,
+              35, 37, 39, 41, 43, 47, 51, 59, 67, 83, 99, 131, 259, 515, 1027, 2051, 4099, 8195, 16387, 32771, 65539]
+
+
+def _lz_source(rng, seqs, tail):
+    """execute (offset, litLength, matchLength) on fresh random literals -> the source these sequences parse"""
+    out = bytearray()
+    for off, ll, ml in seqs:
+        out += rng.randbytes(ll)
+        if off <= ml:
+            for _ in range(ml):
+                out.append(out[-off])
+        else:
+            st = len(out) - off
+            out += out[st:st + ml]
+    out += rng.randbytes(tail)
+    return bytes(out)
+
+
+def seqapi_frames(ctx, rng, n_gap, n_wide):
+    """(name, frame, content) built by ZSTD_compressSequences from explicit sequences:
+    * match-length code sets with a hole of 30..45 unused codes (zero-run of the FSE table description around 12 repeats)
+    * sequences whose extra bits (offset + match length + literal length) exceed what one 64-bit refill holds, in blocks with
+      few / hundreds of other sequences (predefined / compressed tables), at the start, in the middle and at the end of the block"""
+    from . import c17 as c17m
+    try:
+        exe = core.build_harness("c17_seq", ["c17_seq.c"], variant="o1", extra_flags=["-w"])
+    except RuntimeError:
+        exe = core.build_harness("c17_seq", ["c17_seq.c"], variant="o1", extra_flags=["-w"], extra_defs=["-DC17_NO_UNITS"])
+    jobs = []
+    for i in range(n_gap):
+        a = rng.randrange(0, 12)                                  # small match lengths use codes 0..a
+        gap = rng.choice([36, 37, 38, 36, 37, 38, 30, 33, 35, 39, 40, 45])
+        b = min(52, a + gap + 1)
+        seqs = [(rng.randint(1, 8), rng.randint(2, 6), 8)]
+        pos = seqs[0][1] + 8
+        for _ in range(rng.choice([20, 70, 150, 400])):
+            ml = ML_CODE_LO[rng.randint(0, a)]
+            ll = rng.choice([0, 1, 1, 2, 3, 5])
+            seqs.append((rng.randint(1, min(pos + ll, 900)), ll, ml))
+            pos += ll + ml
+        for _ in range(rng.choice([1, 1, 2])):
+            ml = ML_CODE_LO[b] + rng.randrange(0, 3)
+            k = rng.randrange(1, len(seqs))
+            seqs.insert(k, (rng.randint(1, 50), rng.choice([0, 2]), ml))
+        # offsets of the re-ordered list must stay inside what has been produced: recompute conservatively
+        fixed, pos = [], 0
+        for off, ll, ml in seqs:
+            off = max(1, min(off, pos + ll))
+            fixed.append((off, ll, ml))
+            pos += ll + ml
+        x = _lz_source(rng, fixed, rng.choice([0, 3, 40]))
+        if len(x) > 131072:
+            continue
+        jobs.append(("mlgap a=%d gap=%d n=%d" % (a, b - a - 1, len(fixed)), {"blockDelimiters": 0, "validateSequences": 1, "level": rng.choice([1, 3, 7]),
+                     "windowLog": 17, "minMatch": 3}, fixed, x))
+    for i in range(n_wide):
+        lead = 131072                                             # block 0: literals only
+        ll, ml = rng.choice([(33000, 33000), (40000, 34000), (32768, 32771), (20000, 66000), (66000, 20000), (300, 65600)])
+        off = rng.choice([lead + ll - 64, lead + ll - 1000, 140000])
+        ntail = rng.choice([0, 3, 300, 1500])
+        where = rng.choice(["first", "mid", "last"])
+        small = []
+        for _ in range(ntail):
+            small.append((rng.randint(1, 3000), rng.choice([0, 1, 2, 4]), rng.choice([3, 4, 5, 8, 20])))
+        big = (off, ll, ml)
+        if where == "first" or not small:
+            body = [big] + small
+        elif where == "last":
+            body = small + [big]
+        else:
+            k = len(small) // 2
+            body = small[:k] + [big] + small[k:]
+        seqs, pos = [], lead
+        first = True
+        for o, l, m in body:
+            if first:
+                l += lead
+                first = False
+            o = max(1, min(o, pos + (l if l < lead else l - lead)))
+            seqs.append((o, l, m))
+            pos += (l if l < lead else l - lead) + m
+        x = _lz_source(rng, seqs, rng.choice([0, 5]))
+        if len(x) > 2 * 131072:
+            continue
+        jobs.append(("wideseq ll=%d ml=%d off=%d tail=%d %s" % (ll, ml, off, ntail, where), {"blockDelimiters": 0, "validateSequences": 1, "level": rng.choice([1, 3]),
+                     "windowLog": 18, "minMatch": 3}, seqs, x))
+    lines = ["Q s%d %s - - %s %s 0" % (i, codec.params_str(p), c17m.seqs_str(sq), codec.hx(x)) for i, (name, p, sq, x) in enumerate(jobs)]
+    out, errs = c17m.run_lines(exe, lines)
+    res = []
+    nerr = 0
+    for i, (name, p, sq, x) in enumerate(jobs):
+        r = out.get("s%d" % i, "ERR missing").split(" ")
+        if r[0] == "OK":
+            res.append(("seqapi " + name, bytes.fromhex(r[1]), x))
+        else:
+            nerr += 1
+    ctx.notes["seqapi_frames"] = dict(built=len(res), refused=nerr)
+    return res
+
+
 def run(ctx):
     ctx.cov["rule"] = ("frames = real compressor output (random inputs x parameter vectors) + tests/decodecorpus.c output built from the current "
                        "tree (RLE/repeat/compressed tables, treeless and 1-stream literals, odd table logs...) + tests/golden-decompression + "
@@ -65,6 +166,8 @@ def run(ctx):
     for f in sorted(glob.glob(core.REPO + "/tests/golden-decompression/*.zst")):
         if os.path.getsize(f) < 200000:
             frames.append(("golden " + os.path.basename(f), open(f, "rb").read(), None))
+    # (c2) frames built from explicit sequences with ZSTD_compressSequences (harness c17_seq): shapes the match finders never emit
+    frames += seqapi_frames(ctx, rng, 40 if ctx.quick else 200, 3 if ctx.quick else 12)
     # (d) hand-built layouts
     for name, f, x in c09.catalogue(ctx, rng, cd0)[:16]:
         if name.startswith("py"):
